@@ -405,6 +405,8 @@ def run(res, tier, seed):
             ss = xslgen.imports_stylesheet(rng)       # the imports family (import tree, apply-imports, named template overriding)
         elif k % 10 == 5:
             ss = xslgen.attrsets_stylesheet(rng)      # the attribute-set family (merging by import precedence, sets using sets, copy of non-elements)
+        elif k % 10 == 6:
+            ss = xslgen.rtfcompare_stylesheet(rng)    # result tree fragments as operands of every comparison (11.1), on the numeric-looking document
         elif k % 10 == 8:
             ss = xslgen.stripcopy_stylesheet(rng)     # the strip / copy family (strip-space with copy-of, the identity rule, string values)
         elif k % 10 == 1:
@@ -412,6 +414,8 @@ def run(res, tier, seed):
         else:
             ss = xslgen.XslGen(rng).stylesheet()
         d = rng.randrange(len(docs))
+        if (fam == "rtfcompare" or (not fam and k % 10 == 6 and k % 5 != 4)) and rng.random() < 0.8:
+            d = 3                                     # the corpus document whose text values look like numbers
         cdir = os.path.join(wd, "case%d" % k); os.makedirs(cdir)
         for fname, text in xslgen.render_modules(ss).items():
             open(os.path.join(cdir, fname), "w").write(text)
@@ -495,7 +499,7 @@ def run(res, tier, seed):
                        "from the XPath corpus; every 5th stylesheet from the scoping family (call-template / apply-templates with and without with-param under if/choose/for-each/"
                        "literal elements, same-named caller variables), every 10th from the sorting family (1-3 tie-prone sort keys, mixed order and data-type, position()/last() printed), every 10th from the imports family "
                        "(import tree of four modules, rules with overlapping patterns/modes/priorities, xsl:apply-imports, a named template defined in several modules, xsl:include'd runs), every 10th from the attribute-set family (sets merged by import precedence, sets using sets, use-attribute-sets on literal elements / xsl:element / "
-                       "xsl:copy incl. copies of the root, text and attribute nodes), every 10th from the strip / copy family (strip-space and preserve-space declarations with xsl:copy-of of the root / elements / node lists, the identity rule, string values and text counts), every 10th from the multi-document family (document(): identity of loaded "
+                       "xsl:copy incl. copies of the root, text and attribute nodes), every 10th from the fragment-comparison family (result tree fragments against node-sets / strings / numbers / booleans / each other under all six operators), every 10th from the strip / copy family (strip-space and preserve-space declarations with xsl:copy-of of the root / elements / node lists, the identity rule, string values and text counts), every 10th from the multi-document family (document(): identity of loaded "
                        "documents, keys / id() / xsl:number / sorting / template application inside them, strip-space applied to them); non-trivial = at least 5 different instruction kinds in the stylesheet and a non-trivial result tree; distinct by (stylesheet, document). "
                        "Besides: the AVT family, the format-number family and the namespace-node family (see notes). Cases whose definition value involves a number outside the model or a dynamic error are not judged (counted in dropped_unjudged)")
     for ev in events[:2]:
